@@ -275,6 +275,50 @@ def specials():
         c['dirs'] = sorted(set(c['dirs']) | {'cwd/leaf.yaml', 'blt/leaf.yaml'})
         c['tags'].append('special:directory-named-like-the-pipeline')
         out.append(c)
+    # --- directories whose paths differ only by letter case: each pipeline's own custom step
+    #     module must import, whichever loads first; also against entries that are on sys.path
+    #     before pypyr runs ------------------------------------------------------------------
+    for first, second in (('work/Deploy', 'work/deploy'), ('work/deploy', 'work/Deploy'),
+                          ('Work/deploy', 'work/deploy'), ('cwd/Jobs', 'cwd/jobs')):
+        # as two pype children of one caller
+        b = Builder()
+        b.add('g0/c0.yaml', [{'name': f'$T/{first}/job'}, {'name': f'$T/{second}/job'}])
+        b.add(f'{first}/job.yaml', [])
+        b.add(f'{second}/job.yaml', [])
+        out.append(b.case({'name': '$T/g0/c0', 'loader': None, 'py_dir': None},
+                          tags=['special:case-twin-dirs-children']))
+        # the first one is the root run, the second its child (absolute and parent-relative)
+        b = Builder()
+        b.add(f'{first}/job.yaml', [{'name': f'$T/{second}/job2'}])
+        b.add(f'{second}/job2.yaml', [{'name': 'job3'}])
+        b.add(f'{second}/job3.yaml', [])
+        out.append(b.case({'name': f'$T/{first}/job', 'loader': None, 'py_dir': None},
+                          tags=['special:case-twin-dirs-root-then-child']))
+    for a, c in (('Jobs', 'jobs'), ('jobs', 'Jobs')):
+        # nested relative names from cwd
+        b = Builder()
+        b.add('cwd/c0.yaml', [{'name': f'{a}/job'}, {'name': f'{c}/job'}])
+        b.add(f'cwd/{a}/job.yaml', [])
+        b.add(f'cwd/{c}/job.yaml', [])
+        out.append(b.case({'name': 'c0', 'loader': None, 'py_dir': None},
+                          tags=['special:case-twin-dirs-nested-names']))
+    for pre, d in (('$T/WORK', 'work'), ('$T/work', 'WORK'), ('$T/work', 'work'), ('$T/Cwd', 'cwd')):
+        b = Builder()
+        b.add(f'{d}/job.yaml', [{'name': 'job2'}])
+        b.add(f'{d}/job2.yaml', [])
+        b.dirs.add(pre[3:])
+        c = b.case({'name': f'$T/{d}/job', 'loader': None, 'py_dir': None},
+                   tags=['special:sys-path-entry-differs-by-case' if pre[3:] != d
+                         else 'special:sys-path-entry-already-there'])
+        c['pre_syspath'] = [pre]
+        out.append(c)
+    # pyDir differing by case from the pipeline's directory
+    b = Builder()
+    b.add('par/c1.yaml', [{'name': '$T/work/job', 'pydir': '$T/WORK'}])
+    b.add('work/job.yaml', [])
+    b.dirs.add('WORK')
+    out.append(b.case({'name': '$T/par/c1', 'loader': None, 'py_dir': '$T/PAR'},
+                      tags=['special:pydir-differs-by-case']))
     # --- the same pipeline requested twice (cache hit, same answer) ------------------------
     b = Builder()
     b.add('par/c1.yaml', [{'name': 'leaf'}, {'name': 'leaf'}, {'name': 'leaf', 'resolve': False}])
@@ -300,7 +344,7 @@ def specials():
 
 # ------------------------------------------------------------------ random layouts
 
-DIR_POOL = ['cwd', 'cwd/pipelines', 'par', 'oth', 'blt', 'g0', 'cwd/nd', 'par/nd', 'cwd/oth',
+DIR_POOL = ['cwd', 'cwd/pipelines', 'par', 'oth', 'blt', 'g0', 'cwd/nd', 'par/nd', 'cwd/oth', 'Par', 'G0', 'Oth',
             'x', 'x+q', 'cwd/q', 'g0/k', 'cwd/pipelines/nd', 'blt/nd']
 NAME_POOL = ['a', 'b', 'c', 'nd/d', 'nd/e', 'q+r', 'r', 'k/f', 'a.v2', 'nd/d.s1', 'n.d/g.h']   # distinct base names: call graphs stay acyclic
 
@@ -358,7 +402,10 @@ def random_case(rng):
     inv = {'name': ref(names[0]), 'loader': rng.choice([None, None, None, FILE_LOADER, 'c19_loader',
                                                        'c19_loader_np', 'c19_loader_nl']),
            'py_dir': rng.choice([None, None, None, '$T/' + rng.choice(DIR_POOL)])}
-    return b.case(inv, tags=['random'])
+    c = b.case(inv, tags=['random'])
+    if rng.random() < 0.15:
+        c['pre_syspath'] = ['$T/' + rng.choice(DIR_POOL + ['PAR', 'Cwd', 'g0'])]
+    return c
 
 
 MAX_CASES = 6000      # one subprocess per case: keeps a widened search within minutes
